@@ -8,8 +8,9 @@ from .. import gen
 from ..val import veq, clone, walk
 
 ID = 'C13'
-SIZES = {'quick': 20000, 'thorough': 1000000}
+SIZES = {'quick': 20000, 'thorough': 2000000}
 SEED = 1
+REQUIRED_EVENTS = ['substitutions_agreed', 'missing_rejected']
 RULE = ('templates $"..." of 0-4 $-free literal segments (punctuation, unicode, } and :) and 0-4 references to scalar paths of a random '
         'document (strings, integers, booleans, short decimals), to $env:NAME and (inside $repeat) to the repeat variable; whole-value and '
         'key $env:NAME; environment values are arbitrary printable $-free text including look-alikes of numbers, booleans, null, braces and '
